@@ -86,6 +86,8 @@ type ArrayVal struct {
 	List   []Val // when !Scalar: concrete length
 	Sym    string // when !Scalar and List == nil: symbolic list (elements are functions of name and index)
 	SymMax *Term  // optional: upper bound on the length of string/slice elements of a symbolic list
+	Conds  []*Term // optional, parallel to List: element i is present iff Conds[i] (conditional list built by if-converted appends)
+	Unordered bool // elements were appended while ranging over a map: their order is not determined
 }
 
 type PathElem struct {
@@ -117,12 +119,20 @@ type StringVal struct {
 	Tag *StrTag
 }
 
+// CondItem: literal present iff Cond.
+type CondItem struct {
+	Cond *Term
+	Lit  string
+}
+
 // StrTag records how a string was produced (Sprintf etc.) as a list of segments.
 type StrTag struct {
 	Segs []StrSeg
 }
 type StrSeg struct {
-	Kind string // "lit", "dec", "udec", "hex", "HEX", "str"
+	Kind string // "lit", "dec", "udec", "hex", "HEX", "str", "condjoin"
+	Items []CondItem // condjoin: literals present under conditions, joined by Lit as separator
+	Unordered bool
 	Lit  string
 	T    *Term
 	W    int // min width for hex (zero padded); 0 = none
@@ -137,6 +147,7 @@ type IfaceVal struct {
 	// Opaque: dynamic value unknown (e.g. error returned by abstracted call)
 	Opaque bool
 	ID     *Term // identity token for opaque values (BV64)
+	Msg    *StringVal // error values built by errors.New / fmt.Errorf: the message (with its segment tag)
 }
 
 type TupleVal []Val
